@@ -71,6 +71,21 @@ void H_bmArrayOps(void) {
     CANARY();
 }
 
+/* ---- RUNS container (as a large AddRange on an empty set leaves it): clear, membership, cardinality ---- */
+void H_bmRunsClear(void) {
+    varintBitmap *vb = varintBitmapCreate(); __CPROVER_assume(vb != NULL);
+    uint16_t lo, hi, g; __CPROVER_assume(hi > lo && (uint32_t)hi - lo > VARINT_BITMAP_ARRAY_MAX);
+    varintBitmapAddRange(vb, lo, hi);
+    __CPROVER_assume(vb->type == VARINT_BITMAP_RUNS);            /* the run container's allocation succeeded */
+    __CPROVER_assert(varintBitmapContains(vb, g) == (g >= lo && g < hi) && varintBitmapCardinality(vb) == (uint32_t)hi - lo, "bitmap runs: one run holds exactly the range");
+    varintBitmapClear(vb);
+    __CPROVER_assert(varintBitmapIsEmpty(vb) && varintBitmapCardinality(vb) == 0 && !varintBitmapContains(vb, g), "bitmap runs: clear empties the set for every answer, not only the cardinality");
+    uint16_t outv[1]; outv[0] = 0x5a5a;
+    __CPROVER_assert(varintBitmapToArray(vb, outv) == 0 && outv[0] == 0x5a5a, "bitmap runs: nothing is exported after clear");
+    varintBitmapFree(vb);
+    CANARY();
+}
+
 /* ---- BITMAP container (loop-free paths) ---- */
 void H_bmBitmapOps(void) {
     varintBitmap *vb = mk_bitmap();
